@@ -80,7 +80,7 @@ struct G { alignas(16) unsigned char store[NO][sizeof(T)]; Model m; uint32_t nex
 static G * g;
 static T * obj(int i) { return reinterpret_cast<T *>(g->store[i]); }
 
-enum { COV_COPY_CTOR = 0, COV_MOVE_CTOR, COV_COPY_ASSIGN, COV_MOVE_ASSIGN, COV_SWAP, COV_SELF_ASSIGN, COV_SELF_SWAP, COV_COPY_THEN_DIVERGE, COV_QUEUE_COPY_PENDING, COV_COPY_IN_LISTENER, COV_COPY_UNDER_DQN, COV_FILTERS_DIVERGE, COV_DQN_ASSIGN, COV_ASSIGN_INSIDE, COV_N };
+enum { COV_COPY_CTOR = 0, COV_MOVE_CTOR, COV_COPY_ASSIGN, COV_MOVE_ASSIGN, COV_SWAP, COV_SELF_ASSIGN, COV_SELF_SWAP, COV_COPY_THEN_DIVERGE, COV_QUEUE_COPY_PENDING, COV_COPY_IN_LISTENER, COV_COPY_UNDER_DQN, COV_FILTERS_DIVERGE, COV_DQN_ASSIGN, COV_ASSIGN_INSIDE, COV_DQN_COPY, COV_N };
 
 #if OBJ == 0
 static T * g_adder_target = nullptr;
@@ -324,10 +324,35 @@ extern "C" void harness()
 #if OBJ == 2
 		else if(kind == kDqn) {           // DisableQueueNotify objects used as values: two guards on the queue, one assigned onto the other, both destroyed:
 			// no DisableQueueNotify object is alive afterwards, so notification is enabled again (observe(): waitFor(0) reports pending events)
-			{
+			unsigned how = vf_choose(3);
+			if(how == 0) {
 				T::DisableQueueNotify g1(obj(i));
 				{ T::DisableQueueNotify g2(obj(i)); g1 = std::move(g2); }
 			}
+#ifdef INSTRUMENTED_CV
+			else if(how == 1) {           // a COPY of a guard is a DisableQueueNotify object too: while either is alive a wait does not return, once both are gone it does
+				T::DisableQueueNotify * g1 = new T::DisableQueueNotify(obj(i));
+				{
+					T::DisableQueueNotify g2(*g1);
+					unsigned order = vf_choose(2);
+					if(order == 0) { delete g1; g1 = nullptr; }                    // the original goes first: the copy still disables
+					vf_assert(! obj(i)->waitFor(std::chrono::milliseconds(0)), 127);
+				}
+				if(g1) { vf_assert(! obj(i)->waitFor(std::chrono::milliseconds(0)), 127); delete g1; }
+				vf_cover(COV_DQN_COPY);
+			}
+			else {                        // a guard of queue i is assigned the guard of queue j: from then on both disable queue j, nobody disables queue i
+				int j = al[vf_choose(na)];
+				T::DisableQueueNotify g1(obj(i));
+				{
+					T::DisableQueueNotify g2(obj(j));
+					g1 = g2;
+					if(j != i) vf_assert(obj(i)->waitFor(std::chrono::milliseconds(0)) == (m.np[i] != 0), 128);
+					vf_assert(! obj(j)->waitFor(std::chrono::milliseconds(0)), 127);
+				}
+				vf_assert(! obj(j)->waitFor(std::chrono::milliseconds(0)), 127);
+			}
+#endif
 			vf_cover(COV_DQN_ASSIGN);
 		}
 #endif
